@@ -108,6 +108,9 @@ def run(ctx):
         ctx.count('parse_results')
         if not walk(h, ['parse'], text, feats, sig, abs_e, level):
             return
+        if (getattr(h, 'is_expression', False) or getattr(h, 'is_predicate', False)) and S.power_bomb(h):
+            ctx.skip('power-too-large-to-fold')
+            return
         for name, thunk in rewrites_of(h, rng, aliases, other_pred):
             o = hplapi.outcome(thunk)
             if o[0] != 'ok':
